@@ -29,7 +29,7 @@ EXTENDS Bytes, Texts
 GU_Schemes == <<GU_sip, GU_sips>>
 GU_Users   == <<GU_e, GU_al, GU_Al>>
 GU_Passes  == <<GU_e, GU_pw, GU_Pw>>
-GU_Hosts   == <<GU_hx, GU_Hx, GU_gy>>
+GU_Hosts   == <<GU_hx, GU_Hx, GU_gy, GU_v6, GU_v4>>            \* (4: an IPv6 reference with hex letters, 5: an IPv4 address)
 GU_Ports   == <<GU_e, GU_5060, GU_5070>>
 GU_PNames  == <<GU_transport, GU_user, GU_ttl, GU_method, GU_maddr, GU_lr, GU_foo, GU_bar>>
 GU_Vals    == <<GU_e, GU_a, GU_A, GU_b>>
